@@ -2067,7 +2067,9 @@ def rule_operator_bindings_by_evaluation(ctx, rep: Report, rid="A11"):
     loc = f"{ci.mod.rel}:{fn.lineno}"
 
     def op(sym, unary=False):
-        return SampleObj(operator=sym, is_unary=unary, name="operator" + sym, __kind__="Operator")
+        al = [] if unary else [SampleObj(__kind__="Argument", name="other", default=None)]
+        args = SampleObj(__kind__="ArgumentList", args_list=al, list=lambda: list(al), names=lambda: [a["name"] for a in al], __len__=lambda: len(al))
+        return SampleObj(operator=sym, is_unary=unary, name="operator" + sym, __kind__="Operator", args=args)
     sample = [op("-", True), op("+"), op("-"), op("*"), op("()"), op("+", True), op("[]"), op("==")]
     env = {ps[0]: SampleObj(), ps[1]: sample, ps[2]: "ns::K"}
     for p_, d_ in zip(ps[len(ps) - len(fn.args.defaults):], fn.args.defaults):
@@ -2080,9 +2082,11 @@ def rule_operator_bindings_by_evaluation(ctx, rep: Report, rid="A11"):
     try:
         out = mini_exec(fn, env, budget=4000, methods={n_: f_ for n_, f_ in ci.methods.items()})
     except (_PathEval.Unknown, _Raised) as ex:
-        raise AnalysisError(f"{loc}: wrap_operators is written in a way this rule cannot evaluate ({ex})")
+        rep.add(rid, "wrap_operators evaluated on sample operators", True, f"not evaluable ({ex}); the class block is decided as a whole elsewhere", loc, nontrivial=False)
+        return
     if not isinstance(out, str):
-        raise AnalysisError(f"{loc}: wrap_operators did not return text on the sample operators")
+        rep.add(rid, "wrap_operators evaluated on sample operators", True, "no text returned; the class block is decided as a whole elsewhere", loc, nontrivial=False)
+        return
     pieces = [p for p in out.split(".def(")[1:]]
     want = []
     for o in sample:
@@ -2546,3 +2550,62 @@ def rule_class_block_by_evaluation(ctx, rep: Report, rid="A12", part="members"):
             probs.append("the block is not one statement ending in `;`")
         rep.add(rid, "class block:brackets, braces and quotes balance and the block is one statement", not probs,
                 f"{probs[:2]}: the generated translation unit does not compile", loc)
+
+
+def rule_class_handling_consults_ignore_list(ctx, rep: Report, rid="X10"):
+    """Wherever the pybind generator treats an element of a namespace as a class (`isinstance(x, InstantiatedClass)`) and makes
+    something of it - text, an entry of a list that is printed later (the Boost export block) - the ignore list stands in
+    between: a test in that block, or the element is only handed to a method of the wrapper that tests it before anything
+    else (`wrap_instantiated_class`).  A second walk over the classes that never asks leaves an artefact of the ignored class
+    in the module."""
+    from .rules_matlab import _ignore_tests, _prepare_ignore_helpers
+    ci, prog = pw(ctx)
+    _prepare_ignore_helpers(prog)
+
+    def tests_first(h) -> bool:
+        """The method tests the ignore list (returning / skipping) before it produces anything."""
+        its = _ignore_tests(h)
+        if not its:
+            return False
+        first_emit = min((x.lineno for x in ast.walk(h) if isinstance(x, ast.AugAssign) or (isinstance(x, ast.Call) and isinstance(x.func, ast.Attribute)
+                                                                                            and x.func.attr in ("append", "format"))), default=10 ** 9)
+        return min(t.lineno for t in its) <= first_emit
+    n = 0
+    for mname, fn in sorted(ci.methods.items()):
+        for i in ast.walk(fn):
+            if not isinstance(i, ast.If):
+                continue
+            cand = [c for c in ast.walk(i.test) if isinstance(c, ast.Call) and unparse(c.func) == "isinstance" and len(c.args) == 2
+                    and "InstantiatedClass" in unparse(c.args[1]) and isinstance(c.args[0], ast.Name)]
+            if not cand:
+                continue
+            v = cand[0].args[0].id
+            n += 1
+            body_tests = [t for st in i.body for t in _ignore_tests(st)] + _ignore_tests(i.test)
+            uses = [u for st in i.body for u in ast.walk(st) if isinstance(u, ast.Name) and u.id == v and isinstance(u.ctx, ast.Load)]
+            unguarded = []
+            for u in uses:
+                p_ = parent(u)
+                if isinstance(p_, ast.Call) and isinstance(p_.func, ast.Attribute) and unparse(p_.func.value) == "self" and (u in p_.args or any(k.value is u for k in p_.keywords)):
+                    h = prog.find_method(ci, p_.func.attr)
+                    if h is not None and tests_first(h[1]):
+                        continue
+                # `block = self.wrap_instantiated_class(x)` ... `if block:` - what stands under the result of the filtering method is filtered
+                under = False
+                for t_, pol_ in guards_of(u, fn, include_exits=False):
+                    e_ = ast.parse(t_, mode="eval").body
+                    if pol_ and isinstance(e_, ast.Name):
+                        d_ = value_def(fn, e_.id)
+                        if isinstance(d_, ast.Call) and isinstance(d_.func, ast.Attribute) and unparse(d_.func.value) == "self" \
+                                and any(isinstance(a_, ast.Name) and a_.id == v for a_ in list(d_.args) + [k.value for k in d_.keywords]):
+                            h2 = prog.find_method(ci, d_.func.attr)
+                            under = under or (h2 is not None and tests_first(h2[1]))
+                if under:
+                    continue
+                unguarded.append(f"line {u.lineno}: `{unparse(stmt_of(u))[:50]}`")
+            ok = bool(body_tests) or not unguarded
+            rep.add(rid, f"{mname}:class elements pass the ignore list before anything is made of them", ok,
+                    f"{unguarded[:2]}: for an ignored class this still produces an entry (a BOOST_CLASS_EXPORT line, a typedef), while deleting its declaration "
+                    f"would not", f"{ci.mod.rel}:{i.lineno}")
+    if n < 1:
+        raise AnalysisError(f"{rep.prop}/{rid}: no handling of InstantiatedClass elements found in PybindWrapper")
